@@ -562,7 +562,11 @@ def check_record(ctx, book, sc, ev):  # pylint: disable=too-many-return-statemen
         ctx.violate("record-order-differs", dict(facts, same_multiset=sorted(map(str, ids)) == sorted(map(str, seq_ids))), sc)
         return False
     ok = True
+    unstable = set(ev.get("unstable_builds", []))
+    ctx.count("skipped:record_build_not_reproducible", len(unstable))
     for i, task in enumerate(tasks):
+        if i in unstable:
+            continue
         if task["digest"] != task["seq_digest"]:
             ok = False
             shape = shapes[i] if i < len(shapes) else {}
@@ -573,7 +577,7 @@ def check_record(ctx, book, sc, ev):  # pylint: disable=too-many-return-statemen
     if not ok:
         return False
     ctx.count("op:record_equal")
-    ctx.count("op:record_tasks_equal", len(tasks))
+    ctx.count("op:record_tasks_equal", len(tasks) - len(unstable))
     if fn == "pre_process":
         ctx.count("op:pre_process_equal")
     book.fn_cells.setdefault(fn, set()).add((k, n))
